@@ -15,8 +15,12 @@ from base import Ctx
 from common import SPEC, MachineryError, cps
 
 
+FAMILIES: list[list[int]] = []
+
+
 def menu(ctx: Ctx, rng: random.Random) -> list[dict]:
     m = []
+    FAMILIES.clear()
     for meth in ("00", "02", "06", "16", "17", "24", "25", "26", "61", "68", "76", "91"):
         for acct in ("0000000000", "".join(rng.choice("0123456789") for _ in range(10))):
             m.append({"op": "algo.validate", "method": meth, "account": cps(acct)})
@@ -53,6 +57,7 @@ def menu(ctx: Ctx, rng: random.Random) -> list[dict]:
     # near-collisions: calls that differ in ONE argument only (a flag, the country) - what a cache
     # with an incomplete key would confuse
     zeros = "0" * 16
+    fam_start = len(m)
     m += [
         {"op": "iban.from_bban", "cc": cps("AT"), "bban": cps(zeros), "ai": False, "vb": False},
         {"op": "iban.from_bban", "cc": cps("BA"), "bban": cps(zeros), "ai": False, "vb": False},
@@ -66,6 +71,56 @@ def menu(ctx: Ctx, rng: random.Random) -> list[dict]:
         {"op": "iban.random", "country": cps("BR"), "seed": 1, "use_registry": True, "pinned": [], "vals": {}},
         {"op": "iban.random", "country": [], "seed": 219, "use_registry": True, "pinned": [], "vals": {}},
     ]
+    FAMILIES.append(list(range(fam_start, len(m))))
+    # ISO-valid IBANs whose NATIONAL digits are wrong, without and with national validation (a verdict
+    # cached without the flag would leak from the lenient to the strict call)
+    for cc, bban in (("NO", "86011117948"), ("BE", "539007547035"), ("ES", "21000418450200051333"),
+                     ("FR", "20041010050500013M02607"), ("IT", "X0542811101000000123457")):
+        t = cps(cc + gen.check_digits(cc, bban) + bban)
+        FAMILIES.append(list(range(len(m), len(m) + 4)))
+        m += [{"op": "iban.new", "t": t, "vb": False}, {"op": "iban.is_valid", "t": t},
+              {"op": "iban.new", "t": t, "vb": True}, {"op": "iban.validate", "t": t, "vb": True}]
+    # countries that share a structure string but publish different positions (a cache keyed by the
+    # structure would confuse them): generation and decomposition for each member
+    env0 = ctx.frozen(banks=False)
+    by_spec = {}
+    for row in ctx.table(env0):
+        if row["haspos"] and gen.row_classes(row) is not None:
+            by_spec.setdefault(tuple(row["speccp"]), []).append(row)
+    groups = [rows for rows in by_spec.values() if len({json.dumps(r["pos"]) for r in rows}) > 1]
+    for rows in groups[:4]:
+        seen_pos = set()
+        FAMILIES.append([])
+        for row in rows:
+            pj = json.dumps(row["pos"])
+            if pj in seen_pos:
+                continue
+            seen_pos.add(pj)
+            cc = gen.cc_of(row)
+            import c08
+            wb, wa = c08.width(row, "bank_code"), c08.width(row, "account_code")
+            FAMILIES[-1] += [len(m), len(m) + 1]
+            m += [{"op": "iban.generate", "cc": cps(cc), "bank": cps(c08.field_chars(row, "bank_code", rng, wb)),
+                   "branch": [], "acct": cps(c08.field_chars(row, "account_code", rng, max(wa - 1, 1)))},
+                  {"op": "iban.parts", "t": cps(gen.valid_iban(row, rng)), "ai": False}]
+    # texts that differ only at a BBAN position no component covers (filler), and for a country without
+    # positions: a memo keyed by the components would confuse a valid IBAN with its corruption
+    for row in ctx.table(env0):
+        cls = gen.row_classes(row)
+        if cls is None:
+            continue
+        covered = set()
+        for a, z in row["pos"]:
+            covered.update(range(a, z))
+        free = [p for p in range(len(cls)) if p not in covered and cls[p] == 110]
+        if free and (gen.cc_of(row) in ("TR", "MU", "AO") or len(FAMILIES) % 7 == 0):
+            good = gen.valid_iban(row, rng)
+            p = 4 + free[0]
+            bad = good[:p] + ("1" if good[p] != "1" else "2") + good[p + 1:]
+            FAMILIES.append([len(m), len(m) + 1])
+            m += [{"op": "iban.new", "t": cps(good), "vb": False}, {"op": "iban.new", "t": cps(bad), "vb": False}]
+            if len([f for f in FAMILIES if len(f) == 2]) > 8:
+                break
     # bank keys with several entries of mixed primary flags whose first listed entry is not primary:
     # lookups on them must not disturb each other (the registry is frozen)
     import c12
@@ -75,6 +130,7 @@ def menu(ctx: Ctx, rng: random.Random) -> list[dict]:
     mixed = [k for k, es in seen.items() if len(es) > 1 and not es[0]["primary"] and any(x["primary"] for x in es)
              and k[0] == "DE"]
     for cc, code in sorted(mixed)[:: max(1, len(mixed) // 3)][:3]:
+        FAMILIES.append([len(m), len(m) + 1])
         b = code + "0000000000"
         iban = cps(cc + gen.check_digits(cc, b) + b)
         m += [{"op": "bic.lookup", "cc": cps(cc), "code": cps(code)}, {"op": "iban.bank", "t": iban}]
@@ -122,9 +178,9 @@ def run(ctx: Ctx) -> dict:
     # after each call must equal the post-import digest, so each history starts from it)
     pairs = [list(p) for p in itertools.product(range(len(m)), repeat=2)]
     if ctx.quick:
-        tail = list(range(len(m) - 19, len(m)))          # always: everything against the lookup / bank calls
-        keep = [p for p in pairs if p[0] in tail or p[1] in tail]
-        pairs = keep + rng.sample([p for p in pairs if p not in keep], 400)
+        # always: every ordered pair inside a near-collision family; the rest sampled
+        keep = [[a, b] for f in FAMILIES for a in f for b in f]
+        pairs = keep + rng.sample(pairs, 600)
     hists = [[i] for i in range(len(m))] + pairs
     sub = list(range(0, len(m), max(1, len(m) // 12)))[:12]
     triples = [list(p) for p in itertools.product(sub, repeat=3)]
